@@ -128,3 +128,22 @@ package mcp
 //@   ensures @accepted wasInit && !wasInitd ==> result.1 == nil && calls(userHandler) <= 1 && at(afterUpdate, ss.state.InitializedParams) != nil
 //@        && at(afterUpdate, ss.state.InitializeParams) == old(ss.state.InitializeParams)
 //@   ensures @handler-iff-configured wasInit && !wasInitd && ss.server.opts.InitializedHandler != nil ==> calls(userHandler) == 1
+
+// Per-request metadata: the new protocol is recognised only from a version >= 2026-07-28 and only when the client
+// capabilities are present and decodable (and clientInfo, if present, decodable); failures are invalid-params.
+// extractRequestMeta decodes into a zero-valued local, so the decoder only allocates: nothing that existed before
+// the call is written (assumed: encoding/json does not write outside its destination).
+//@ func extractRequestMeta
+//@   trusted
+//@ func validateRequestMeta [C06]
+//@   track decodeMetaValue as decCaps when $1 == MetaKeyClientCapabilities
+//@   track decodeMetaValue as decInfo when $1 == MetaKeyClientInfo
+//@   requires req != nil
+//@   ensures @some-answer result.1 == nil ==> result.0 != nil
+//@   ensures @new-needs-2026 result.1 == nil && result.0.usesNewProtocol ==> result.0.initializeParams != nil
+//@        && result.0.initializeParams.ProtocolVersion >= protocolVersion20260728
+//@   ensures @new-needs-capabilities result.1 == nil && result.0.usesNewProtocol ==> calls(decCaps) == 1 && callResult(decCaps, 1, 1)
+//@   ensures @new-needs-valid-clientinfo result.1 == nil && result.0.usesNewProtocol && calls(decInfo) >= 1 ==> callResult(decInfo, 1, 1)
+//@   ensures @legacy-has-no-params result.1 == nil && !result.0.usesNewProtocol ==> result.0.initializeParams == nil
+//@   ensures @errors-are-invalid-params result.1 != nil ==> result.0 == nil && typeIs(result.1, *jsonrpc.Error)
+//@        && result.1.(*jsonrpc.Error).Code == jsonrpc.CodeInvalidParams
